@@ -125,7 +125,7 @@ def run_stream(ctx, st, safebin):
     with open(os.path.join(work, "other"), "w", encoding="utf-8") as f:
         f.write("other file\nשלום\n")
     R, C = st["size"]
-    recs, rc, err, to, _ = run_vi(ctx, args, body + tail, timeout=st.get("timeout", 20 + len(body) // 60), cwd=work, fsize=150 << 20,
+    recs, rc, err, to, _ = run_vi(ctx, args, body + tail, timeout=st.get("timeout", 20 + len(body) // 60), cwd=work, fsize=600 << 20,
                                   env_extra={"LINES": str(R), "COLUMNS": str(C), "EXINIT": st["exinit"], "LD_PRELOAD": safebin})
     shutil.rmtree(work, True)
     complete = bool(recs) and recs[-1].get("ev") == "exit" and rc == 0 and not to
@@ -141,7 +141,7 @@ def run_stream(ctx, st, safebin):
         # a count of 10^8 or more overflows the window arithmetic (signed wrap-around): cursor / window positions are not required
         for x in states:
             x["done"] = 0
-    maxn = max([r.get("n", 0) for r in recs if r.get("ev") == "ec"] + [x["n"] for x in states] + [0])
+    maxn = max([r.get("n", 0) for r in recs if r.get("ev") == "ec"] + [r.get("row", 0) for r in recs if r.get("ev") == "gv"] + [x["n"] for x in states] + [0])
     res = {"complete": complete, "rc": rc, "timed_out": to, "nrec": len(recs), "states": states, "stderr": err[-4000:], "maxn": maxn}
     if not complete:
         m = re.search(r"SUMMARY: (\S+): (\S+)(?: \S+ in (\S+))?", err) or re.search(r"(runtime error): ([^\n]{0,80})", err)
